@@ -18,12 +18,12 @@ func init() {
 	core.Register(&core.Prop{
 		ID:    "C14",
 		Level: "fault_enumeration",
-		Rule: "API-level differential against crypto/ed25519: NewKeyFromSeed, Sign, PrivateKey.Sign (bytes equal) for seeded seeds and messages of length 0..300 and 1 MiB; Verify verdicts on the cross product A in {honest, the 8 small-order points in canonical and non-canonical encodings, y not on the curve, y = p-1, p, p+1, 2^255-1, x = 0 with the sign bit} x R likewise x S in {honest, S+kL, L-1, L, 0, each of the top three bits}, every single-bit flip of an honest (A, msg, sig) triple, 63/65-byte signatures, forged small-order signatures (S = 0, R = -[k]A found by search); " +
+		Rule: "API-level differential against crypto/ed25519: NewKeyFromSeed, Sign, PrivateKey.Sign (bytes equal) for seeded seeds and messages of length 0..300 and 1 MiB; Verify verdicts on the cross product A in {honest, the 8 small-order points in canonical and non-canonical encodings, y not on the curve, y = p-1, p, p+1, 2^255-1, x = 0 with the sign bit} x R likewise x S in {honest, S+kL, L-1, L, 0, each of the top three bits}, every single-bit flip of an honest (A, msg, sig) triple, 63/65-byte signatures, forged small-order signatures (S = 0, R = -[k]A found by search); histories of 12..22 consecutive Verify calls over related inputs (a key and its negation with signatures valid under each, an invalid key encoding twice in a row signed with the previous key's scalar, one-bit neighbours, small-order keys, exact repeats) with key, message and signature in buffers refilled in place; " +
 			"GenerateKey under the same scripted entropy reader on both sides (fault position 0..33 x 4 chunkings, exhaustive): same outputs, same error, same bytes consumed. " +
-			"Operation-level reference model through the verif-tagged hook: scalar reduction of 64 and 32 bytes, clamping, canonical check, MultiplyAdd/Add/Sub/Neg/Mul, the fork's own ModInverse, point decoding (accept set and value), ScalarMult, ScalarBaseMult, VarTimeDoubleScalarBaseMult, point Add/Sub/Neg, each compared with a math/big twisted-Edwards model on limb-boundary operand patterns, L-1, L, L+1, 2^252+-1, small-order and seeded points. " +
+			"Operation-level reference model through the verif-tagged hook: scalar reduction of 64 and 32 bytes, clamping, canonical check, MultiplyAdd/Add/Sub/Neg/Mul, the fork's own ModInverse, point decoding (accept set and value), ScalarMult, ScalarBaseMult, VarTimeDoubleScalarBaseMult, point Add/Sub/Neg, each compared with a math/big twisted-Edwards model on limb-boundary operand patterns (21-bit and all 864 combinations of 64-bit limbs in {0, 1, 2^64-1, 2^63, 2^32-1, 2^63+1}), L-1, L, L+1, 2^252+-1, small-order and seeded points. " +
 			"distinct_nontrivial = distinct (case class, operand pattern) keys",
 		Floors: []string{"keys_equal_std", "signatures_equal_std", "verify_agree_accept", "verify_agree_reject", "small_order_inputs", "noncanonical_inputs", "s_plus_L_inputs", "forged_small_order_accepted_by_both", "bitflips", "generatekey_same_as_std",
-			"cold_start_verify_agrees", "identity_key_high_s", "hook_scalar_ops", "hook_point_decode", "hook_scalar_mult", "hook_modinverse", "model_agrees_with_std"},
+			"cold_start_verify_agrees", "identity_key_high_s", "hook_scalar_ops", "hook_point_decode", "hook_scalar_mult", "hook_modinverse", "model_agrees_with_std", "hook_limb_pattern_scalars", "history_verify_agree_accept", "history_verify_agree_reject"},
 		Assumptions: []string{"crypto/ed25519 of the Go toolchain that builds the harness is the reference", "the math/big model is cross-checked against crypto/ed25519 in the same run (class model_agrees_with_std)"},
 		SelfCheck:   []string{"model_disagrees_with_std"},
 		Run:         runC14,
@@ -405,6 +405,7 @@ func runC14(c *core.Ctx) {
 
 	// ---------------- D. operation-level model through the hook
 	m.hookOps()
+	m.verifyHistories()
 }
 
 func canonicalOrSelf(b []byte) []byte {
@@ -591,6 +592,60 @@ func (m *c14) hookOps() {
 		}
 		c.Distinctf("hook:decode:%d", i)
 	}
+	// multiplications on 64-bit limb patterns (each as the point scalar and as the base-point scalar)
+	limb := c14LimbScalars()
+	for li := 0; li < len(limb); li += 8 {
+		if !c.Next() {
+			continue
+		}
+		r := c.CaseRng()
+		var P *ref.EdPoint
+		var penc []byte
+		for {
+			penc = r.Bytes(32)
+			var ok bool
+			if P, ok = ref.EdDecode(penc); ok {
+				break
+			}
+		}
+		for _, x := range limb[li:min(li+8, len(limb))] {
+			y := limb[r.IntN(len(limb))]
+			xi, yi := ref.EdScalarInt(x), ref.EdScalarInt(y)
+			c.Eval(3)
+			d := map[string]any{"x": core.Hex(x), "y": core.Hex(y), "point": core.Hex(penc)}
+			pan, pv, _ := core.Guard(func() {
+				for _, sw := range []bool{false, true} {
+					a, b, ai, bi := x, y, xi, yi
+					if sw {
+						a, b, ai, bi = y, x, yi, xi
+					}
+					dm, err := ed25519.VerifDoubleScalarBaseMult(a, penc, b)
+					if err != nil || !bytes.Equal(dm, ref.EdEncode(ref.EdAdd(ref.EdMul(ai, P), ref.EdMul(bi, ref.EdB)))) {
+						d["swapped"] = sw
+						c.Violation("hook:VarTimeDoubleScalarBaseMult", "VarTimeDoubleScalarBaseMult differs from the model on a 64-bit limb pattern", d)
+						return
+					}
+				}
+				if sm, err := ed25519.VerifScalarMult(x, penc); err != nil || !bytes.Equal(sm, ref.EdEncode(ref.EdMul(xi, P))) {
+					c.Violation("hook:ScalarMult", "ScalarMult differs from the model on a 64-bit limb pattern", d)
+					return
+				}
+				if bm := ed25519.VerifScalarBaseMult(x); !bytes.Equal(bm, ref.EdEncode(ref.EdMul(xi, ref.EdB))) {
+					c.Violation("hook:ScalarBaseMult", "ScalarBaseMult differs from the model on a 64-bit limb pattern", d)
+					return
+				}
+				// the same scalar through the public API: identity public key, R = [S]B verifies for every message
+				sig := append(ref.EdEncode(ref.EdMul(xi, ref.EdB)), x...)
+				m.verify(ref.EdEncode(ref.EdIdentity()), r.Bytes(5), sig, "identity-key:limb-pattern-S", true)
+				c.Class("hook_limb_pattern_scalars")
+			})
+			if pan {
+				c.Violation("hook:panic", "panic: "+pv, d)
+			}
+		}
+		c.Distinctf("hook:limb:%d", li)
+	}
+	c.Exhaustive("VarTimeDoubleScalarBaseMult / ScalarMult / ScalarBaseMult on all 864 scalars with 64-bit limbs in {0, 1, 2^64-1, 2^63, 2^32-1, 2^63+1} (top limb {0, 1, 2^60-1, 2^59})")
 	// multiplications
 	nMul := c.Pick(120, 30000)
 	for i := 0; i < nMul; i++ {
@@ -650,4 +705,161 @@ func (m *c14) hookOps() {
 		}
 		c.Distinctf("hook:mult:%d", i)
 	}
+}
+
+// edSignWith makes an Ed25519-shaped signature with the model: secret scalar a, nonce r = H(prefix||msg), challenge
+// hashed over the given public-key BYTES (which need not be [a]B): R = [r]B, S = r + H(R||pub||msg)*a mod L.
+func edSignWith(a *big.Int, prefix, pub, msg []byte) []byte {
+	h := sha512.Sum512(append(clone(prefix), msg...))
+	r := new(big.Int).Mod(ref.EdScalarInt(h[:]), ref.EdL)
+	R := ref.EdEncode(ref.EdMul(r, ref.EdB))
+	kh := sha512.Sum512(append(append(clone(R), pub...), msg...))
+	k := new(big.Int).Mod(ref.EdScalarInt(kh[:]), ref.EdL)
+	S := new(big.Int).Mod(new(big.Int).Add(r, new(big.Int).Mul(k, a)), ref.EdL)
+	return append(R, le32(S)...)
+}
+
+// verifyHistories: CONSECUTIVE Verify calls over a pool of related inputs - a key and its negation (sign bit
+// flipped) with signatures valid under each, an invalid key encoding presented twice in a row with a signature made
+// with the previous key's scalar, keys differing in one bit, small-order keys, the same triple again - with the key,
+// message and signature handed over in three buffers the caller refills in place. Each verdict is compared with
+// crypto/ed25519 (stateless), so anything the verifier remembers from an earlier call, by value or by reference,
+// shows as a disagreement.
+func (m *c14) verifyHistories() {
+	c := m.c
+	n := c.Pick(40, 3000)
+	for hi := 0; hi < n; hi++ {
+		if !c.Next() {
+			continue
+		}
+		r := c.CaseRng()
+		type triple struct {
+			name          string
+			pub, msg, sig []byte
+		}
+		var pool []triple
+		msg := r.Bytes(r.IntN(40))
+		for ki := 0; ki < 2; ki++ {
+			seed := r.Bytes(32)
+			h := sha512.Sum512(seed)
+			a := ref.EdClamp(h[:])
+			pub := ref.EdPublicFromSeed(seed)
+			sig := stded.Sign(stded.NewKeyFromSeed(seed), msg)
+			neg := clone(pub)
+			neg[31] ^= 0x80
+			negA := new(big.Int).Sub(ref.EdL, new(big.Int).Mod(a, ref.EdL))
+			tag := fmt.Sprintf("key%d", ki)
+			pool = append(pool,
+				triple{tag + ":valid", pub, msg, sig},
+				triple{tag + ":negated-key,signature-valid-under-it", neg, msg, edSignWith(negA, h[32:], neg, msg)},
+				triple{tag + ":negated-key,signature-of-the-original", neg, msg, sig},
+				triple{tag + ":original-key,signature-valid-under-the-negated", pub, msg, edSignWith(negA, h[32:], neg, msg)},
+				triple{tag + ":other-message", pub, append(clone(msg), 1), sig},
+				triple{tag + ":key-bit-flipped", flipBit(pub, r.IntN(255)), msg, sig},
+			)
+			// an invalid key encoding (y not on the curve), with a signature made with THIS key's scalar over those bytes
+			for {
+				bad := r.Bytes(32)
+				if _, ok := ref.EdDecode(bad); !ok {
+					pool = append(pool, triple{tag + ":invalid-key-encoding,signed-with-this-key's-scalar", bad, msg, edSignWith(a, h[32:], bad, msg)})
+					break
+				}
+			}
+			// a small-order key with the forged signature S = 0, R = -[k]A found by search (valid under crypto/ed25519)
+			so := m.smallOrder[r.IntN(len(m.smallOrder))]
+			soEnc := ref.EdEncode(so)
+			for try := 0; try < 64; try++ {
+				Rp := m.smallOrder[r.IntN(len(m.smallOrder))]
+				sg := append(ref.EdEncode(Rp), make([]byte, 32)...)
+				if stded.Verify(stded.PublicKey(soEnc), msg, sg) {
+					pool = append(pool, triple{tag + ":small-order-key,forged-signature", soEnc, msg, sg})
+					break
+				}
+			}
+		}
+		pubBuf, msgBuf, sigBuf := make([]byte, 32), make([]byte, 0, 64), make([]byte, 64)
+		var trace []string
+		// a fixed opening (valid key, then an invalid encoding twice; a key, its negation, the key again), then seeded calls
+		prelude := []string{"key0:valid", "key0:invalid-key-encoding,signed-with-this-key's-scalar", "key0:invalid-key-encoding,signed-with-this-key's-scalar", "key0:valid",
+			"key0:negated-key,signature-valid-under-it", "key0:valid", "key0:negated-key,signature-of-the-original", "key0:original-key,signature-valid-under-the-negated", "key1:valid", "key0:valid"}
+		if hi%2 == 1 {
+			prelude = prelude[:0]
+		}
+		steps := len(prelude) + 12
+		for step := 0; step < steps; step++ {
+			var t triple
+			switch {
+			case step < len(prelude):
+				for _, p := range pool {
+					if p.name == prelude[step] {
+						t = p
+					}
+				}
+			case step > 0 && r.IntN(4) == 0:
+				t = pool[(len(trace)*7+step)%len(pool)]
+				// the call before, once more
+				for _, p := range pool {
+					if p.name == trace[len(trace)-1] {
+						t = p
+					}
+				}
+			default:
+				t = pool[r.IntN(len(pool))]
+			}
+			trace = append(trace, t.name)
+			copy(pubBuf, t.pub)
+			msgBuf = append(msgBuf[:0], t.msg...)
+			copy(sigBuf, t.sig)
+			c.Eval(1)
+			var f bool
+			pan, pv, _ := core.Guard(func() { f = ed25519.Verify(ed25519.PublicKey(pubBuf), msgBuf, sigBuf) })
+			want := stded.Verify(stded.PublicKey(clone(t.pub)), clone(t.msg), clone(t.sig))
+			d := map[string]any{"calls_in_order": clone2(trace), "public_key": core.Hex(t.pub), "message": core.Hex(t.msg), "signature": core.Hex(t.sig)}
+			if pan {
+				c.Violation("Verify:history:panic", "Verify panicked: "+pv, d)
+				break
+			}
+			if f != want {
+				c.Violation("Verify:history:disagrees", fmt.Sprintf("after the calls before it, Verify returns %v for an input crypto/ed25519 judges %v", f, want), d)
+				break
+			}
+			if !bytes.Equal(pubBuf, t.pub) || !bytes.Equal(sigBuf, t.sig) {
+				c.Violation("Verify:history:argument-written", "Verify modified its argument buffers", d)
+				break
+			}
+			if want {
+				c.Class("history_verify_agree_accept")
+			} else {
+				c.Class("history_verify_agree_reject")
+			}
+		}
+		c.Distinctf("verify-history:%d", hi)
+		if hi < 1 {
+			c.Sample("verify history", map[string]any{"calls_in_order": trace})
+		}
+	}
+}
+
+// c14LimbScalars: scalars below L whose four 64-bit limbs are each one of {0, 1, 2^64-1, 2^63, 2^32-1, 2^63+1}
+// (top limb: {0, 1, 2^60-1, 2^59}): zero limbs reached with and without a pending carry, runs of ones across limbs.
+func c14LimbScalars() [][]byte {
+	lo := []uint64{0, 1, ^uint64(0), 1 << 63, 1<<32 - 1, 1<<63 + 1}
+	top := []uint64{0, 1, 1<<60 - 1, 1 << 59}
+	var out [][]byte
+	for _, a := range lo {
+		for _, b := range lo {
+			for _, c := range lo {
+				for _, d := range top {
+					s := make([]byte, 32)
+					for i, v := range []uint64{a, b, c, d} {
+						for k := 0; k < 8; k++ {
+							s[8*i+k] = byte(v >> (8 * uint(k)))
+						}
+					}
+					out = append(out, s)
+				}
+			}
+		}
+	}
+	return out
 }
